@@ -38,7 +38,7 @@ pub const POOL_SIZES: [usize; 6] = [1, 2, 3, 4, 16, 64];
 
 // ------------------------------------------------------------------------------ C07
 
-pub const C07_RULE: &str = "positions including checkmated, stalemated, single-legal-move and in-check ones (cage / pin-check themes, placements, endgames, reachable walks), half-move clock 0..150 and 0..3 prior registrations of the position (so draw-by-history states with legal moves are included), depth 0..3 (3 only for <= 8 men), rayon pools of 1/2/3/4/16/64 threads, through alpha_beta_search with a new or a used generator (optionally followed by a second search with the same context on the same position or on the same placement with the other side to move) and through Game::select_alpha_beta_best_move: depth 0 -> Err(DepthTooLow) (a terminal position at depth 0 may report either declared error); no legal move and depth >= 1 -> Err(NoAvailableMoves); otherwise Ok(move) whose (kind, from, to, promotion, captured) is in the reference legal set; full observable snapshot identical before and after; no panic. Non-trivial = terminal, single legal move, in check, depth 0, clock >= 100 or repetition count 3 with legal moves, or pool size != 1; distinct = hash of the case.";
+pub const C07_RULE: &str = "positions including checkmated, stalemated, single-legal-move and in-check ones (cage / pin-check themes, placements, endgames, reachable walks), half-move clock 0..150 and 0..3 prior registrations of the position (so draw-by-history states with legal moves are included), depth 0..5 (3 only for <= 8 men, 4 for <= 4 men, 5 for <= 3 men), rayon pools of 1/2/3/4/16/64 threads, through alpha_beta_search with a new or a used generator (optionally followed by a second search with the same context on the same position or on the same placement with the other side to move) and through Game::select_alpha_beta_best_move: depth 0 -> Err(DepthTooLow) (a terminal position at depth 0 may report either declared error); no legal move and depth >= 1 -> Err(NoAvailableMoves); otherwise Ok(move) whose (kind, from, to, promotion, captured) is in the reference legal set; full observable snapshot identical before and after; no panic. Non-trivial = terminal, single legal move, in check, depth 0, clock >= 100 or repetition count 3 with legal moves, or pool size != 1; distinct = hash of the case.";
 
 #[derive(Clone, Debug, Serialize, Deserialize)]
 pub struct SearchCase {
@@ -83,7 +83,7 @@ impl Prop for C07Searches {
     fn strategy(&self, _tier: Tier) -> BoxedStrategy<SearchCase> {
         (
             search_position(),
-            prop_oneof![1 => Just(0u8), 4 => Just(1u8), 4 => Just(2u8), 2 => Just(3u8)],
+            prop_oneof![2 => Just(0u8), 8 => Just(1u8), 8 => Just(2u8), 4 => Just(3u8), 1 => Just(4u8), 1 => Just(5u8)],
             0u8..6,
             prop_oneof![6 => 0u8..40, 1 => 95u8..105, 1 => 100u8..=150],
             prop_oneof![8 => Just(0u8), 1 => Just(1u8), 1 => Just(2u8), 1 => Just(3u8)],
@@ -113,7 +113,14 @@ impl Prop for C07Searches {
         let mut pos = Pos::from_fen(&c.fen).map_err(Failure::new)?;
         pos.half = c.half as u32;
         let men = pos.men();
-        let depth = if c.depth >= 3 && men > 8 { 2 } else { c.depth };
+        // depth 3 only for <= 8 men, 4 for <= 4 men, 5 for <= 3 men
+        let depth = match (c.depth, men) {
+            (d, m) if d >= 5 && m <= 3 => 5,
+            (d, m) if d >= 4 && m <= 4 => 4,
+            (d, m) if d >= 3 && m <= 8 => 3,
+            (d, _) if d >= 3 => 2,
+            (d, _) => d,
+        };
         let legal = pos.legal_moves();
         let mut board = to_board(&pos);
         for _ in 0..c.reps {
@@ -265,7 +272,7 @@ impl Prop for C07Searches {
 
 // ------------------------------------------------------------------------------ C08
 
-pub const C08_RULE: &str = "(position, depth N, game continuation) with half-move clock 0 so that clock + N + plies < 100: few-piece endgames (2..7 men; 70%) and set-up/reachable middlegames (30%), N in 1..4 (4 for <= 4 men, 3 for <= 7 men, else 2), searched through alpha_beta_search or Game::select_alpha_beta_best_move on ONE SearchContext/Game reused along a generated game continuation of 0..6 further searches (engine move every ply, or engine move + generated reply). Oracle: cache-free, pruning-free minimax over the reference legal moves; leaves and no-move nodes valued as the property states: mate score for the side to move when in check without moves (read from evaluate::score on a canonical mated board for that colour and remaining depth), 0 for stalemate, otherwise evaluate::board_material_score of the position rebuilt from scratch. last_score()/alpha_beta_score() must equal minimax(root, N) and minimax(child after the returned move, N-1) must equal it too. Plus a complete enumeration of K+P(7th) v K positions (both colours) in which promoting to a queen stalemates, searched at depth 1..2(3). Non-trivial = search with a reused context (prior >= 1), or a tree containing a mate/stalemate inside the horizon; distinct = (root fingerprint, N, prior index).";
+pub const C08_RULE: &str = "(position, depth N, game continuation) with half-move clock 0 so that clock + N + plies < 100: few-piece endgames (2..7 men; 70%) and set-up/reachable middlegames (30%), N in 1..5 (5 for <= 3 men, 4 for <= 4 men, 3 for <= 7 men, else 2), searched through alpha_beta_search or Game::select_alpha_beta_best_move on ONE SearchContext/Game reused along a generated game continuation of 0..6 further searches (engine move every ply, or engine move + generated reply). Oracle: cache-free, pruning-free minimax over the reference legal moves; leaves and no-move nodes valued as the property states: mate score for the side to move when in check without moves (read from evaluate::score on a canonical mated board for that colour and remaining depth), 0 for stalemate, otherwise evaluate::board_material_score of the position rebuilt from scratch. last_score()/alpha_beta_score() must equal minimax(root, N) and minimax(child after the returned move, N-1) must equal it too. Plus a complete enumeration of K+P(7th) v K positions (both colours) in which promoting to a queen stalemates, searched at depth 1..2(3). Non-trivial = search with a reused context (prior >= 1), or a tree containing a mate/stalemate inside the horizon; distinct = (root fingerprint, N, prior index).";
 
 struct MateTable {
     white_mated: Vec<i16>,
@@ -355,7 +362,7 @@ impl Prop for C08Searches {
                 1 => gen::placement(12).prop_map(move |r| zero(gen::build(&r))),
                 1 => gen::walk(50).prop_map(move |w| zero(gen::walk_end(&w))),
             ],
-            1u8..=max_depth,
+            prop_oneof![4 => 1u8..=max_depth, 1 => Just(5u8)],
             prop::collection::vec(any::<u16>(), 0..=6),
             any::<bool>(),
             any::<bool>(),
@@ -395,7 +402,8 @@ impl Prop for C08Searches {
             }
             let men = pos.men();
             let depth = match men {
-                0..=4 => c.depth,
+                0..=3 => c.depth,
+                4 => c.depth.min(4),
                 5..=7 => c.depth.min(3),
                 _ => c.depth.min(2),
             };
@@ -415,7 +423,7 @@ impl Prop for C08Searches {
                 (_, Some((_, _, ctx))) => ctx.search_depth(),
                 _ => depth,
             };
-            if (men > 7 && depth > 2) || (men > 4 && depth > 3) {
+            if (men > 7 && depth > 2) || (men > 4 && depth > 3) || (men > 3 && depth > 4) {
                 break;
             }
             let mut info = MinimaxInfo {
